@@ -15,6 +15,7 @@ var summaryFields = map[string][]string{
 	"Deployment":              {"spec.replicas", "spec.paused", "spec.strategy", "spec.minReadySeconds", "spec.template.spec.containers", "metadata.annotations", "metadata.labels", "status.replicas", "status.updatedReplicas", "status.readyReplicas", "status.availableReplicas", "metadata.finalizers", "metadata.deletionTimestamp"},
 	"CloneSet":                {"spec.replicas", "spec.updateStrategy", "spec.minReadySeconds", "spec.template.spec.containers", "metadata.annotations", "metadata.labels", "status.replicas", "status.updatedReplicas", "status.updatedReadyReplicas", "status.readyReplicas", "status.currentRevision", "status.updateRevision"},
 	"StatefulSet":             {"spec.replicas", "spec.updateStrategy", "spec.template.spec.containers", "metadata.annotations", "metadata.labels", "status.replicas", "status.updatedReplicas", "status.readyReplicas", "status.currentRevision", "status.updateRevision"},
+	"DaemonSet":               {"spec.updateStrategy", "spec.template.spec.containers", "metadata.annotations", "metadata.labels", "status.desiredNumberScheduled", "status.updatedNumberScheduled", "status.numberReady", "status.daemonSetHash", "status.observedGeneration"},
 	"ReplicaSet":              {"spec.replicas", "status.replicas", "spec.minReadySeconds", "status.availableReplicas", "status.readyReplicas"},
 	"Service":                 {"spec.selector"},
 	"Ingress":                 {"metadata.annotations", "spec.rules"},
